@@ -708,6 +708,75 @@ where
         p.out(r);
         v.push(entry("chain[(a+b)(a-b) == a^2-b^2: is_equal, expose both]", p, 2, q(false)));
     }
+    // --- bound bookkeeping: every operation that tracks limb bounds (select, cond_swap, add, sub,
+    // neg, mul_by_constant, add_constant) applied AFTER an un-normalising step and BEFORE the
+    // bound-sensitive consumers (is_zero, equality, exposure, bit decomposition, multiplication),
+    // with the un-normalised value in either operand position and both condition values; the
+    // specials are representations of zero (a + b = m with carries, a = b) and limbs at 2^64 k
+    {
+        let big_half = (&m - &one) >> 1;
+        let sp = |bit: bool, x: &BigUint, y: &BigUint| FIn {
+            fe: vec![x.clone(), y.clone()],
+            bits: vec![bit],
+            bytes: vec![],
+        };
+        let pw = &one << lb;
+        for (pname, pk) in [("a+b", 0usize), ("a-b", 1), ("-a", 2), ("3a", 3), ("a+(m-1)", 4), ("a+2b+5", 5)] {
+            let mut p = PB::new();
+            let bit = p.p(Ins::InBit(0));
+            let a = p.p(Ins::In(0));
+            let c = p.p(Ins::In(1));
+            let u = match pk {
+                0 => p.p(Ins::Add(a, c)),
+                1 => p.p(Ins::Sub(a, c)),
+                2 => p.p(Ins::Neg(a)),
+                3 => p.p(Ins::MulC(a, b(3))),
+                4 => p.p(Ins::AddC(a, m1.clone())),
+                _ => p.p(Ins::Lin(vec![(one.clone(), a), (b(2), c)], b(5))),
+            };
+            let t1 = p.p(Ins::Select(bit, u, a));
+            let t2 = p.p(Ins::Select(bit, a, u));
+            let sw = p.p(Ins::CondSwap(bit, u, c));
+            let t3 = p.p(Ins::Neg(u));
+            let t4 = p.p(Ins::MulC(u, b(2)));
+            let t5 = p.p(Ins::Sub(c, u));
+            let t6 = p.p(Ins::Add(u, u));
+            let t7 = p.p(Ins::AddC(u, one.clone()));
+            let t8 = p.p(Ins::Select(bit, t6, u));
+            for r in [t1, t2, sw, sw + 1, t3, t4, t5, t6, t7, t8] {
+                let z = p.p(Ins::IsZero(r));
+                p.out(z);
+                p.out(r);
+            }
+            for r in [t2, sw + 1] {
+                let e1 = p.p(Ins::IsEq(r, a));
+                p.out(e1);
+                let e2 = p.p(Ins::IsEqC(r, BigUint::zero()));
+                p.out(e2);
+                let s0 = p.p(Ins::Sgn0(r));
+                p.out(s0);
+                let pr = p.p(Ins::Mul(r, c));
+                p.out(pr);
+            }
+            let mut e = entry(&format!("bounds[u={pname}: select/cond_swap/neg/2u/b-u/u+u/u+1 then is_zero, expose, is_equal, sgn0, mul]"), p, 2, q(pk == 0 || pk == 3 || pk == 5));
+            e.nbits = 1;
+            let pw_c = (&m - &pw) % &m;
+            let half_c = (&m - &big_half) % &m;
+            e.specials = vec![
+                sp(false, &pw, &pw_c),
+                sp(true, &pw, &pw_c),
+                sp(false, &big_half, &half_c),
+                sp(true, &big_half, &half_c),
+                sp(false, &b(5), &b(5)),
+                sp(true, &pw, &pw),
+                sp(false, &BigUint::zero(), &BigUint::zero()),
+                sp(true, &m1, &one),
+                sp(false, &(&pw * b(3)), &(&pw * b(5))),
+                sp(false, &b(7), &(&m - b(7))),
+            ];
+            v.push(e);
+        }
+    }
     // seeded random chains: 2..6 additive/multiplicative steps, then every sensitive sink
     {
         use rand::Rng;
